@@ -273,8 +273,31 @@ func runC17(c *fw.Ctx) {
 		// repair
 		dsnap := memSnapshot(donor)
 		if len(removed) > 0 && si%3 == 1 {
-			// store-level repair: the donor's nodes are merged into the store below the trie
-			if err := util.MergeState(context.Background(), donor, part); err != nil {
+			// store-level repair: the donor's nodes are merged into the store below the trie. For a layered store half of
+			// the repairs write into its lower level directly (the same layered object, which has already looked the absent
+			// keys up, is used afterwards); every fourth repair reads the donor from a persistent store
+			target := part
+			if lv, isLevel := part.(*util.LevelNodeDB); isLevel && r.Intn(2) == 0 {
+				target = lv.GetPrev()
+				c.Count("store_level_repairs_into_the_lower_level", 1)
+			}
+			var src util.NodeDB = donor
+			if si%4 == 1 {
+				pdisk := disk + "-pdonor"
+				pd, perr := util.NewPNodeDB(pdisk, "")
+				if perr != nil {
+					panic(perr)
+				}
+				defer func() { pd.Close(); grocksdb.DropDisk(pdisk) }()
+				for i, n := range nodes {
+					if removed[i] {
+						_ = pd.PutNode(n.Key, n.Node)
+					}
+				}
+				src = pd
+				c.Count("store_level_repairs_from_a_persistent_donor", 1)
+			}
+			if err := util.MergeState(context.Background(), src, target); err != nil {
 				fail("MergeState failed: %v", err)
 			}
 			c.Count("store_level_repairs", 1)
@@ -586,7 +609,7 @@ func init() {
 		Rule: "each case builds a trie over 1..4 versions (so node origins differ; every 83rd case a big one with several hundred nodes and an additional removal set holding every non-root node) and then, for every single reachable non-root node (up to 24; exhaustive for small tries), 3 whole subtrees, 4 scattered subsets and the empty set, " +
 			"copies the trie into a store (memory / layered / persistent) without the removed nodes and a donor store with them. A trie opened at a version equal to or above the creating versions must: report HasMissingNodes iff the frontier is non-empty; " +
 			"GetAllMissingNodes == frontier (absent nodes reachable through present ones, computed by the harness); lookups through an absent node fail with ErrNodeNotFound, others return the model value, never-stored paths never return data; partial iteration yields only true pairs; " +
-			"after the repair (MergeDB(donor) through the trie, or for a third of the removal sets the store-level util.MergeState(donor, store)): content complete (also for a fresh trie on the repaired store), root unchanged, HasMissingNodes false, donor snapshot (key->encoding) byte-identical; for a fifth of the removal sets on a memory or persistent store a handle that has read the complete state replaces one value locally (its store really deletes the replaced nodes) and is synced back to the old root from a donor holding only the old root node: HasMissingNodes / GetAllMissingNodes / lookups must follow the store as it is now, not what the handle's cache remembers; for a third of the removal sets the repair is repeated through a trie whose cache is warm (it read the complete state before the nodes were deleted from its store) and judged by a fresh trie; for a quarter the repair runs in a child trie whose changes (plus one insert) are then merged into a parent trie of another version, after which the donor snapshot must still be identical; for a quarter the sync runs in a layered trie followed by SaveChanges to the lower store, which a fresh trie must read completely; for a quarter the donor is a layered store whose own trie has moved on since. non-trivial/distinct = (trie, removal set) pairs with a non-empty removal",
+			"after the repair (MergeDB(donor) through the trie, or for a third of the removal sets the store-level util.MergeState(donor, store) - for layered stores half of them into the lower level directly, a quarter from a donor that is a persistent store -): content complete (also for a fresh trie on the repaired store), root unchanged, HasMissingNodes false, donor snapshot (key->encoding) byte-identical; for a fifth of the removal sets on a memory or persistent store a handle that has read the complete state replaces one value locally (its store really deletes the replaced nodes) and is synced back to the old root from a donor holding only the old root node: HasMissingNodes / GetAllMissingNodes / lookups must follow the store as it is now, not what the handle's cache remembers; for a third of the removal sets the repair is repeated through a trie whose cache is warm (it read the complete state before the nodes were deleted from its store) and judged by a fresh trie; for a quarter the repair runs in a child trie whose changes (plus one insert) are then merged into a parent trie of another version, after which the donor snapshot must still be identical; for a quarter the sync runs in a layered trie followed by SaveChanges to the lower store, which a fresh trie must read completely; for a quarter the donor is a layered store whose own trie has moved on since. non-trivial/distinct = (trie, removal set) pairs with a non-empty removal",
 		Cases: func(tier string) int {
 			if tier == "thorough" {
 				return 120000
@@ -594,7 +617,7 @@ func init() {
 			return 4800
 		},
 		Run:    runC17,
-		Floors: map[string]int64{"fat_tries": 50, "removal_sets_above_256_nodes": 35, "store_level_repairs": 15000, "syncs_after_a_local_delete": 3000, "handles_with_history_synced_back": 5000, "handles_with_history_synced_back_over_real_deletions": 2000, "tries": 3000, "removal_sets": 50000, "removal:single": 30000, "removal:subtree": 9000, "removal:scattered": 12000, "blocked_lookups": 50000, "repairs_with_foreign_origin": 20000, "tries_with_mixed_origins": 1000, "warm_cache_repairs": 10000, "repaired_child_merged_into_parent": 8000, "synced_state_saved_and_reread": 8000, "repairs_from_layered_donor": 8000},
+		Floors: map[string]int64{"fat_tries": 50, "removal_sets_above_256_nodes": 35, "store_level_repairs": 15000, "store_level_repairs_into_the_lower_level": 2000, "store_level_repairs_from_a_persistent_donor": 3000, "syncs_after_a_local_delete": 3000, "handles_with_history_synced_back": 5000, "handles_with_history_synced_back_over_real_deletions": 2000, "tries": 3000, "removal_sets": 50000, "removal:single": 30000, "removal:subtree": 9000, "removal:scattered": 12000, "blocked_lookups": 50000, "repairs_with_foreign_origin": 20000, "tries_with_mixed_origins": 1000, "warm_cache_repairs": 10000, "repaired_child_merged_into_parent": 8000, "synced_state_saved_and_reread": 8000, "repairs_from_layered_donor": 8000},
 		Assumptions: []string{
 			"the donor is a MemoryNodeDB (map iteration order = arbitrary repair order)",
 			"single-node removals are exhaustive up to 24 nodes per trie; other subsets are sampled",
